@@ -1,7 +1,7 @@
 (** C05 — stream() never stalls and ends exactly when all functions were yielded.
     All four variants (stream / stream_with / stream_interruptible / stream_with_interruptible). *)
 From FG Require Import Dag Builder Sched DagFacts EdgeFacts RankFacts BuilderFacts TopoFacts AugFacts BuildFacts
-     SchedInv SafetyFacts CfgFacts StreamInv SI_Queuer SI_Step SI_Stream SafetyInv StreamFacts IntCredit StreamIntFacts.
+     SchedInv SafetyFacts CfgFacts StreamInv SI_Queuer SI_Step SI_Stream SafetyInv StreamFacts IntCredit StreamIntFacts StreamDrive.
 
 (** Any interleaving of poll_next, FnRef drops (any number between two polls), interrupt signals
     and dropping the stream — in any order, drops after the stream is gone included — never reaches
@@ -117,6 +117,44 @@ Proof.
   - intros o ->. exact (int_item_run sc evs s' o eq_refl Halive Hstep).
 Qed.
 Print Assumptions C05_none_interruptible.
+
+(** "Once the FnRefs of all predecessors of a function have been dropped - in any number and order
+    between polls - that function is yielded without any unrelated event being needed": after ANY
+    history, polling until the stream stops yielding items has yielded every function none of
+    whose strict ancestors is still held. *)
+Theorem C05_unblocked_is_yielded : forall ops G p q rev st evs,
+  build (builder_run ops) = BOk G p q ->
+  let sc := mk_scfg G rev st false true in
+  s_alive (srun sc evs) = true ->
+  let s' := fst (spoll (S (sc_n sc)) sc (srun sc evs)) in
+  forall c, c < ncount (builder_run ops) ->
+    (forall a, Path (sc_es sc) a c -> a <> c -> ~ In a (wait_ids (members s'))) ->
+    In c (starts (trace s')).
+Proof.
+  intros ops G p q rev st evs Hb sc Hal s' c Hc Hfree.
+  pose proof (build_ok_intro ops G p q Hb) as Hok.
+  pose proof (scfg_ok_mk _ _ _ _ rev st false true Hok) as Hsok. fold sc in Hsok.
+  assert (Hn : sc_n sc = ncount (builder_run ops)).
+  { unfold sc, mk_scfg. simpl. unfold fg_n. rewrite (bo_nodes _ _ _ _ Hok). reflexivity. }
+  apply (unblocked_is_yielded sc evs Hsok eq_refl eq_refl Hal c); [rewrite Hn; exact Hc | exact Hfree].
+Qed.
+Print Assumptions C05_unblocked_is_yielded.
+
+(** The stream never stalls: a consumer that polls only when woken ([sdrive_w]: poll until Pending,
+    drop some held FnRef, poll again only if that drop signalled the wake-up) reaches the end of the
+    stream within n drops, from the state after any history and for any choice of the FnRef. *)
+Theorem C05_stream_eventually_ends : forall ops G p q rev st evs pick,
+  build (builder_run ops) = BOk G p q ->
+  let sc := mk_scfg G rev st false true in
+  s_alive (srun sc evs) = true -> fair_held pick ->
+  snd (sdrive_w pick (sc_n sc) sc (srun sc evs)) = WNone.
+Proof.
+  intros ops G p q rev st evs pick Hb sc Hal Hf.
+  pose proof (build_ok_intro ops G p q Hb) as Hok.
+  pose proof (scfg_ok_mk _ _ _ _ rev st false true Hok) as Hsok. fold sc in Hsok.
+  exact (stream_eventually_ends_woken sc evs pick Hsok eq_refl eq_refl Hal Hf).
+Qed.
+Print Assumptions C05_stream_eventually_ends.
 
 (** Non-vacuity: a, b -> c; yield a, b; poll (Pending); drop both; the next poll yields c. *)
 Example C05_example :
